@@ -59,6 +59,17 @@ def _ratio_case(keys):
         k.density = rho
         E.eq('attribute_density_then_natural', k.natural_density * act, rho * nat)
         E.eq('density_keyword', f.density, rho)
+        # the keywords also win over the density carried by a Formula object used as initialiser
+        rho2 = E.real('rho2', lo=0, lo_open=True, hi=25)
+        h1 = formulas.formula(f, natural_density=rho2)
+        E.eq('formula_object_natural_density_keyword', h1.natural_density, rho2)
+        E.eq('formula_object_natural_density_keyword.density', h1.density * nat, rho2 * act)
+        h2 = formulas.formula(f, density=rho2)
+        E.eq('formula_object_density_keyword', h2.density, rho2)
+        h3 = formulas.formula(f)
+        E.eq('formula_object_inherits_density', h3.density, rho)
+        h4 = formulas.Formula(structure=f.structure, natural_density=rho2)
+        E.eq('Formula_natural_density_argument', h4.natural_density, rho2)
     return h
 
 
